@@ -9,6 +9,7 @@ import ElysModel.Gen.Arith.calcTakeAmount
 import ElysModel.Gen.Arith.calcReturnAmount
 import ElysModel.Gen.Arith.borrowInterestRateComputation
 import ElysModel.Gen.Arith.calcFundingRate
+import ElysModel.Gen.Arith.getFundingPaymentRates
 import ElysModel.Gen.Arith.Table
 import ElysModel.Lemmas.GenTie
 import ElysModel.Lemmas.AmmBase
@@ -105,6 +106,64 @@ theorem funding_rate_in_band (long short base mx mn r : Int) (hmm : mn ≤ mx) (
         subst h
         split <;> split <;> omega
     · simp [h1, h3, pure, Except.pure] at h; omega
+
+/-- funding is paid by one side to the other, as the source has it now (x/perpetual/keeper/get_net_open_interest.go
+`GetFundingPaymentRates`): for non-negative funding rates and open interests the side that pays is charged its funding rate as computed
+and the other side's rate is zero or negative (it receives) — never both sides charged, never both sides paid. -/
+theorem funding_paid_by_one_side (frL frS oiL oiS l s : Int) (hL : 0 ≤ frL) (hS : 0 ≤ frS) (hoL : 0 ≤ oiL) (hoS : 0 ≤ oiS)
+    (h : Gen.Arith.getFundingPaymentRates frL frS oiL oiS = .ok (l, s)) :
+    (frL = 0 → l ≤ 0 ∧ s = frS) ∧ (frL ≠ 0 → l = frL ∧ s ≤ 0) := by
+  have hp : 0 < P := P_pos
+  have quoNonneg : ∀ a b q : Int, 0 ≤ a → 0 < b → quoC a b = .ok q → 0 ≤ q := by
+    intro a b q ha hb hq
+    unfold quoC at hq
+    have : b ≠ 0 := by omega
+    simp only [this, if_false] at hq
+    have e := chk_ok hq
+    subst e
+    unfold Dec.quo
+    exact monotone_round2_le _ (Int.tdiv_nonneg (Int.mul_nonneg (Int.mul_nonneg ha (by omega)) (by omega)) (by omega))
+  have mulNonneg : ∀ a b q : Int, 0 ≤ a → 0 ≤ b → mulC a b = .ok q → 0 ≤ q := by
+    intro a b q ha hb hq
+    unfold mulC at hq
+    have e := chk_ok hq
+    subst e
+    unfold Dec.mul
+    exact monotone_round2_le _ (Int.mul_nonneg ha hb)
+  unfold Gen.Arith.getFundingPaymentRates at h
+  by_cases h0 : frL = 0
+  · simp only [h0, if_true] at h
+    refine ⟨fun _ => ?_, fun hne => absurd h0 hne⟩
+    by_cases h1 : oiL = 0
+    · simp only [h1, not_true_eq_false, if_false, pure, Except.pure, bind, Except.bind, Except.ok.injEq, Prod.mk.injEq] at h
+      omega
+    · simp only [h1, not_false_eq_true, if_true] at h
+      obtain ⟨u, hu, h⟩ := bind_ok h
+      obtain ⟨t1, ht1, hu⟩ := bind_ok hu
+      obtain ⟨t2, ht2, hu⟩ := bind_ok hu
+      simp only [pure, Except.pure, Except.ok.injEq] at hu h
+      subst hu
+      have hoLp : 0 < oiL * P := Int.mul_pos (by omega) hp
+      have h1n := mulNonneg _ _ _ hS (Int.mul_nonneg hoS (by omega)) ht1
+      have h2n := quoNonneg _ _ _ h1n hoLp ht2
+      have := Prod.mk.inj h
+      omega
+  · simp only [h0, if_false] at h
+    refine ⟨fun he => absurd he h0, fun _ => ?_⟩
+    by_cases h1 : oiS = 0
+    · simp only [h1, not_true_eq_false, if_false, pure, Except.pure, bind, Except.bind, Except.ok.injEq, Prod.mk.injEq] at h
+      omega
+    · simp only [h1, not_false_eq_true, if_true] at h
+      obtain ⟨u, hu, h⟩ := bind_ok h
+      obtain ⟨t3, ht3, hu⟩ := bind_ok hu
+      obtain ⟨t4, ht4, hu⟩ := bind_ok hu
+      simp only [pure, Except.pure, Except.ok.injEq] at hu h
+      subst hu
+      have hoSp : 0 < oiS * P := Int.mul_pos (by omega) hp
+      have h3n := mulNonneg _ _ _ hL (Int.mul_nonneg hoL (by omega)) ht3
+      have h4n := quoNonneg _ _ _ h3n hoSp ht4
+      have := Prod.mk.inj h
+      omega
 
 /-- balanced open interest pays the base rate; a one-sided market pays the maximum. -/
 theorem funding_rate_cases (a base mx mn : Int) (ha : 0 < a) :
